@@ -26,6 +26,9 @@ type GenOpts struct {
 	MaxDepth   int
 	NumericVal bool // values in the store are decimal integers (int(value) meaningful)
 	UpperCase  bool // random letter case for keywords
+	// OrderedBetween: literal BETWEEN bounds are strictly ascending (lower >= upper is a run-time error of
+	// the engine, i.e. outside the domain of properties that speak about evaluable statements)
+	OrderedBetween bool
 }
 
 func defaultOpts() GenOpts {
@@ -306,6 +309,19 @@ func (g *Gen) KeyAtom() string {
 		return k + " " + g.kw("in") + " (" + strings.Join(items, ", ") + ")"
 	}
 	g.note("key-between")
+	if g.o.OrderedBetween {
+		a, b := pick(g.r, g.o.KeyLits), pick(g.r, g.o.KeyLits)
+		for tries := 0; a == b && tries < 8; tries++ {
+			b = pick(g.r, g.o.KeyLits)
+		}
+		if a == b {
+			b = a + "z"
+		}
+		if a > b {
+			a, b = b, a
+		}
+		return k + " " + g.kw("between") + " " + quote(a) + " " + g.kw("and") + " " + quote(b)
+	}
 	return k + " " + g.kw("between") + " " + lit + " " + g.kw("and") + " " + g.strLit(true)
 }
 
